@@ -29,8 +29,17 @@ def main():
         print(f"HARNESS: no check registered for {a.prop}")
         return 3
     modname, fn, args = RUNNERS[a.prop]
-    mod = __import__(f"checks.{modname}", fromlist=[fn])
-    return getattr(mod, fn)(*args, a.tier)
+    try:
+        mod = __import__(f"checks.{modname}", fromlist=[fn])
+        return getattr(mod, fn)(*args, a.tier)
+    except SystemExit:
+        raise
+    except BaseException as e:  # noqa: BLE001 - a crash of the machinery is a harness error (exit 3), never a verdict
+        import traceback
+
+        traceback.print_exc()
+        print(f"HARNESS: {a.prop} check crashed: {type(e).__name__}: {e}")
+        return 3
 
 
 if __name__ == "__main__":
